@@ -46,7 +46,7 @@ Definition c16_corr_subs (c : c16_case) : bool :=
   && forallb (fun '(p, b) => Bool.eqb (subs_contains subs p) b) (c_contains c).
 
 Definition c16_corr_probe (c : c16_case) : bool :=
-  let t := mk_tg (c_reg c) (c_spec c) (c_outs c) (c_gen c) (c_paths c) in
+  let t := mk_tg "c16" (c_reg c) (c_spec c) (c_outs c) (c_gen c) (c_paths c) true [] None in
   corr_gen t && corr_paths t.
 
 (** ** property checkers on the observed data *)
@@ -94,20 +94,16 @@ Definition reachable (r : registry) (id : N) : list N :=
   Nat.iter (List.length r) (reach_step r) [id].
 
 Definition plain_key (p : list string) : string := join " :: " p.
-Definition first_entry (r : registry) (key : string) : option N :=
-  match find (fun e => nonempty (t_path (snd e)) && String.eqb (plain_key (t_path (snd e))) key) r with
-  | Some (id, _) => Some id
-  | None => None
-  end.
-(** some entry with path [P] is reachable from the first entry whose path is written [key] *)
+(** the entries whose path is written [key] (every instantiation of a generic root is a root:
+    behaviour after the F13 repair of flatten_recursive_derives; before it only the first was) *)
+Definition entries_of (r : registry) (key : string) : list N :=
+  map fst (filter (fun e => nonempty (t_path (snd e)) && String.eqb (plain_key (t_path (snd e))) key) r).
+(** some entry with path [P] is reachable from some entry whose path is written [key] *)
 Definition reach_from_key (r : registry) (key : string) (P : list string) : bool :=
-  match first_entry r key with
-  | None => false
-  | Some id => existsb (fun i => match resolve r i with
-                                 | Some t => path_eqb (t_path t) P
-                                 | None => false
-                                 end) (reachable r id)
-  end.
+  existsb (fun id => existsb (fun i => match resolve r i with
+                                       | Some t => path_eqb (t_path t) P
+                                       | None => false
+                                       end) (reachable r id)) (entries_of r key).
 
 Fixpoint ins_str (x : string) (l : list string) : list string :=
   match l with
